@@ -641,10 +641,10 @@ class Explorer:
             return False
         return self._check(z3.Not(e)) == z3.unsat
 
-    def require(self, c, msg, **info):
-        """oracle assertion: the property demands c on every input of this path"""
+    def require(self, cond__, msg, **info):
+        """oracle assertion: the property demands cond__ on every input of this path"""
         self.reached_flag = True
-        e = z3.simplify(zb(c))
+        e = z3.simplify(zb(cond__))
         if z3.is_true(e):
             return
         if not z3.is_false(e):
